@@ -2,6 +2,7 @@ package main
 
 import (
 	"fmt"
+	"os"
 	"go/constant"
 	"go/token"
 	"go/types"
@@ -286,7 +287,17 @@ func (w *Worker) callFunc(fn *ssa.Function, args []Value, env []Value) Value {
 		w.unsupported("call of function without body: " + name)
 	}
 	if len(w.stack) > 400 {
-		w.report(&Violation{Kind: "steps", ID: "stack-depth:" + name, Msg: "interpreter stack depth > 400"})
+		_, m := w.check(nil, true)
+		cnt := map[string]int{}
+		best := name
+		for _, fr := range w.stack {
+			n := fr.fn.String()
+			cnt[n]++
+			if cnt[n] > cnt[best] || (cnt[n] == cnt[best] && n < best) {
+				best = n
+			}
+		}
+		w.report(&Violation{Kind: "steps", ID: "stack-depth:" + best, Msg: "unbounded recursion: interpreter stack depth > 400", Model: m})
 		w.endPath("stack-depth")
 	}
 	fi := w.eng.info(fn)
@@ -377,6 +388,28 @@ func (w *Worker) store(p Ptr, v Value) {
 			w.globalStore(name)
 		}
 	}
+	assignInPlace(p, v)
+}
+
+// assignInPlace stores v into the slot, keeping the identity of struct and
+// array storage so that interior pointers taken earlier stay valid.
+func assignInPlace(p Ptr, v Value) {
+	switch nv := v.(type) {
+	case Struct:
+		if old, ok := (*p).(Struct); ok && len(old) == len(nv) {
+			for i := range nv {
+				assignInPlace(&old[i], nv[i])
+			}
+			return
+		}
+	case Array:
+		if old, ok := (*p).(Array); ok && len(old) == len(nv) {
+			for i := range nv {
+				assignInPlace(&old[i], nv[i])
+			}
+			return
+		}
+	}
 	*p = copyVal(v)
 }
 
@@ -397,7 +430,8 @@ func (w *Worker) runFrame(f *Frame) {
 					if w.noFork > 0 {
 						panic(specAbort{"steps"})
 					}
-					w.report(&Violation{Kind: "steps", ID: "step-budget", Msg: fmt.Sprintf("path exceeded %d interpreted instructions", w.h.Cfg.MaxSteps)})
+					_, m := w.check(nil, true)
+					w.report(&Violation{Kind: "steps", ID: "step-budget", Msg: fmt.Sprintf("path exceeded %d interpreted instructions", w.h.Cfg.MaxSteps), Model: m})
 					w.endPath("steps")
 				}
 			}
@@ -486,6 +520,13 @@ func (w *Worker) runFrame(f *Frame) {
 				w.set(f, in, w.evalValue(f, in))
 			default:
 				panic(fmt.Sprintf("unhandled instruction %T", in))
+			}
+			if traceFn != "" && strings.Contains(f.fn.String(), traceFn) {
+				if v, ok := in.(ssa.Value); ok {
+					fmt.Fprintf(os.Stderr, "TRACE %s: %s = %s  => %s\n", f.fn.Name(), v.Name(), in.String(), trunc(valueString(w.get(f, v)), 200))
+				} else {
+					fmt.Fprintf(os.Stderr, "TRACE %s: %s\n", f.fn.Name(), in.String())
+				}
 			}
 		}
 		w.funcs[f.fn.String()] += len(blk.Instrs)
@@ -980,7 +1021,16 @@ func (w *Worker) allocBudget(size *Term) {
 	sz := w.tc.Resize(size, 64, false)
 	ok := w.tc.Cmp(OpUle, sz, w.tc.Const(64, limit))
 	f := w.top()
-	w.obligation("alloc", w.siteKey(f), ok, fmt.Sprintf("allocation size not bounded by %d*input(%d bytes)+%d", a, inputBytes, b))
+	msg := fmt.Sprintf("allocation size not bounded by %d*input(%d bytes)+%d", a, inputBytes, b)
+	if w.pos >= len(w.prefix) && w.noFork == 0 {
+		// prefer a dramatic witness (>= 2^24 elements) so that the native replay
+		// can observe the allocation
+		big := w.tc.Cmp(OpUle, w.tc.Const(64, 1<<24), sz)
+		if r, m := w.check(w.tc.And(big, w.tc.Cmp(OpUle, sz, w.tc.Const(64, 1<<27))), true); r == Sat {
+			w.report(&Violation{Kind: "alloc", ID: w.siteKey(f), Msg: msg, Model: m})
+		}
+	}
+	w.obligation("alloc", w.siteKey(f), ok, msg)
 }
 
 func (w *Worker) allocCheck(n int64, t types.Type) {
@@ -998,3 +1048,5 @@ func (w *Worker) globalStore(name string) {
 	_, m := w.check(nil, true)
 	w.report(&Violation{Kind: "globalstore", ID: name + "@" + w.siteKey(f), Msg: "store to package-level state " + name + " after init", Model: m})
 }
+
+var traceFn = os.Getenv("VCHECK_TRACE")
